@@ -111,8 +111,8 @@ def write_search_cases(path, seed, tier):
         out.append({"k": "search", "dir": False, "g": enc_graph(n, e, False), "paths": False, "sources": [0, n - 1]})
         w = {x: rng.randint(0, 9) for x in e}
         out.append({"k": "dijkstra", "dir": False, "g": enc_graph(n, e, False, w), "sources": [0, n - 1]})
-        path = {(v, v + 1) for v in range(n - 1)}
-        out.append({"k": "search", "dir": True, "g": enc_graph(n, path, True), "paths": True, "sources": [0, n // 2]})
+        chain = {(v, v + 1) for v in range(n - 1)}
+        out.append({"k": "search", "dir": True, "g": enc_graph(n, chain, True), "paths": True, "sources": [0, n // 2]})
     for n in ([17] if tier == "quick" else [17, 24]):
         comp = {(i, j) for i in range(n) for j in range(n) if i < j}
         out.append({"k": "search", "dir": False, "g": enc_graph(n, comp, False), "paths": True, "sources": [0, n - 1]})
